@@ -35,6 +35,7 @@ Definition ID_REWARD_ADDRESS : N := 2.
 Definition ID_OUTPUT_MAP : N := 3.
 Definition ID_AUX_ALONZO : N := 4.
 Definition ID_VALUE_MA : N := 5.
+Definition ID_BIGNUM_BYTES : N := 6.
 
 (* addresses travel as byte strings; [writer_form] restricts them to valid Shelley address bytes *)
 Definition AddressS := SNamed ID_ADDRESS (SBytes 29 57).
@@ -234,7 +235,8 @@ Definition BlockPraos (d : nat) := arr [HeaderPraos; SArrOf 0 (TransactionBody d
    - an address is valid Shelley address bytes (header nibble consistent with the length);
    - the map form of an output is only written when it has an inline datum or a script reference;
    - in Alonzo-format auxiliary data the Plutus V1 list (key 2) is written whenever any Plutus script list is;
-   - a Value is written as [coin, multiasset] only when some policy of the multiasset has a non-empty Assets. *)
+   - a Value is written as [coin, multiasset] only when some policy of the multiasset has a non-empty Assets;
+   - a stand-alone BigInt uses the bignum tags only for 9 or more bytes without a leading zero. *)
 Definition writer_form (id : N) (v : val) : bool :=
   if id =? ID_ADDRESS then
     match v with
@@ -263,6 +265,11 @@ Definition writer_form (id : N) (v : val) : bool :=
   else if id =? ID_VALUE_MA then
     match v with
     | VList [_; VMap l] => existsb (fun kv => match snd kv with VMap (_ :: _) => true | _ => false end) l
+    | _ => false
+    end
+  else if id =? ID_BIGNUM_BYTES then
+    match v with
+    | VBytes (h :: t) => negb (h =? 0) && (8 <=? N.of_nat (length t))
     | _ => false
     end
   else if id =? ID_AUX_ALONZO then
@@ -328,7 +335,9 @@ Definition PlutusMap (d : nat) := SMapOf 0 KMulti (PlutusData d) (PlutusData d).
 Definition ConstrPlutusData (d : nat) :=
   let fields := SArrAny (PlutusData d) in
   STagChoice (tag_run 121 7 fields (tag_run 1280 121 fields (cl [(102, arr [U64; fields])]))).
-Definition BigInt := choice [(6, STagChoice (cl [(2, SBBytes); (3, SBBytes)])); (0, U64); (1, SNint)].
+(* stand-alone BigInt: the bignum tags are written only outside the 64-bit heads, minimal big-endian bytes *)
+Definition BigInt := choice [(6, STagChoice (cl [(2, SNamed ID_BIGNUM_BYTES SBBytes); (3, SNamed ID_BIGNUM_BYTES SBBytes)]));
+                             (0, U64); (1, SNint)].
 Definition Redeemer (d : nat) := arr [RedeemerTag; U64; PlutusData d; ExUnits].
 Definition Language := SUint 3.
 Definition CostModel := SArrOf 0 IntS.
